@@ -6,7 +6,7 @@
         +-2 bytes of a frame boundary or inside a fixed-size header, every two-cut segmentation whose cuts lie
         within +-1 byte of a frame boundary or on a field boundary inside a fixed-size header, the
         one-byte-at-a-time segmentation, one-byte-at-a-time after an unsplit first frame, and equal pieces of
-        7 / 64 / 1000 bytes;
+        7 / 64 / 1000 bytes, halves and thirds, and whole frames 1 / 10 / 70 per segment;
      Gen_Stream_sim.cfg (simulation): random walks of Deliver(k), k drawn from a size palette.
    Every step is Stream!Segment (Deliver(k) with the server's side elided; MC_Stream covers the server). *)
 EXTENDS Stream, Json
@@ -79,6 +79,17 @@ Ones(n) == [i \in 1..n |-> 1]
 (* the stream in pieces of k bytes (the last one shorter) *)
 Chunks(n, k) == [i \in 1..((n + k - 1) \div k) |-> IF i * k <= n THEN k ELSE n - (i - 1) * k]
 ChunkSizes(n) == (IF n <= 3000 THEN {7} ELSE {}) \cup (IF n <= 20000 THEN {64} ELSE {}) \cup {1000}
+                 \cup {(n + 1) \div 2, (n + 2) \div 3}       \* two and three large segments
+
+(* whole frames per segment: g frames in each (g = 1: every request in its own read; larger g: coalesced requests) *)
+Min(a, b) == IF a < b THEN a ELSE b
+Grouped(fs, g) == SelectSeq([j \in 1..((Len(fs) + g - 1) \div g) |->
+                               EndOf(fs, Min(j * g, Len(fs))) - EndOf(fs, (j - 1) * g)], LAMBDA x : x > 0)
+GroupSizes == {1, 10, 70}
+
+(* sessions of very many frames: first cuts at the frame boundaries +-1 only *)
+Many(fs) == Len(fs) > 60
+PosB(fs) == Within(fs, UNION {(EndOf(fs, i) - 1)..(EndOf(fs, i) + 1) : i \in DOMAIN fs})
 
 RECURSIVE SumSeq(_, _)
 SumSeq(sq, j) == IF j = 0 THEN 0 ELSE sq[j] + SumSeq(sq, j - 1)
@@ -88,14 +99,17 @@ CutNext ==
       P2 == Pos2(frames)
   IN
   \/ /\ segs = <<>>                 \* first cut (or none: the unsegmented stream)
-     /\ \E p \in P1 \cup P2 \cup {Tot} :
+     /\ \E p \in (IF Many(frames) THEN PosB(frames) ELSE P1 \cup P2) \cup {Tot} :
           /\ SegmentIn(p, Tot) /\ segs' = <<p>> /\ UNCHANGED sess
-          /\ style' = IF p = Tot THEN "cut0" ELSE IF p \in P2 THEN "cuts2" ELSE "cuts1"
+          /\ style' = IF p = Tot THEN "cut0" ELSE IF ~Many(frames) /\ p \in P2 THEN "cuts2" ELSE "cuts1"
   \/ /\ style = "cuts2" /\ Len(segs) < MaxCuts /\ (TwoCut = {} \/ Sessions[sess].sess \in TwoCut)     \* further cuts only between positions of the reduced set
      /\ \E p \in P2 : p > delivered /\ StepTo(p)
   \/ /\ style \in {"cuts1", "cuts2"} /\ StepTo(Tot)
   \/ /\ segs = <<>> /\ Sessions[sess].ones          \* one byte at a time
      /\ SegmentIn(Tot, Tot) /\ segs' = Ones(Tot) /\ style' = "ones" /\ UNCHANGED sess
+  \/ /\ segs = <<>> /\ Len(frames) > 1               \* whole frames, g per segment
+     /\ \E g \in GroupSizes : /\ g < Len(frames) /\ SegmentIn(Tot, Tot) /\ segs' = Grouped(frames, g)
+                                /\ style' = "frames" /\ UNCHANGED sess
   \/ /\ segs = <<>>                                  \* equal pieces
      /\ \E k \in ChunkSizes(Tot) : /\ k < Tot /\ SegmentIn(Tot, Tot) /\ segs' = Chunks(Tot, k)
                                       /\ style' = "chunks" /\ UNCHANGED sess
@@ -111,7 +125,7 @@ SimNext ==
 GenNext == delivered < Tot /\ IF Sim THEN SimNext ELSE CutNext
 
 Src == IF Sim THEN "sim-" \o style
-       ELSE IF style' \in {"ones", "ones-head", "chunks"} THEN style' ELSE "cut" \o ToString(Len(segs') - 1)
+       ELSE IF style' \in {"ones", "ones-head", "chunks", "frames"} THEN style' ELSE "cut" \o ToString(Len(segs') - 1)
 
 Emit == (delivered' = Tot) =>
           PrintT("B " \o ToJson([sess |-> Sessions[sess].sess, segs |-> segs', src |-> Src]))
